@@ -609,7 +609,8 @@ def process_config(args):
         v["reproduced"] = bool(failed)
     # ---- shadow run: the same harness on float64 with default inputs must hold numerically
     sa = getattr(mod, "SHADOW_ALWAYS", None)  # configurations whose float path may part from the object path (stated per check)
-    if (opts.get("shadow") or (sa and sa(cfg))) and not res["violations"] and not res["error"] and not res["inconclusive"]:
+    # (also when the symbolic run ended inconclusive -- a model gap must not switch the differential run off)
+    if (opts.get("shadow") or (sa and sa(cfg)) or res["inconclusive"]) and not res["violations"] and not res["error"]:
         try:
             failed, note = concrete_run(mod, cfg, None)
             res["shadow"] = dict(failed=failed, note=note)
